@@ -7,7 +7,7 @@ Local Open Scope N_scope.
 
 (* ---- the tie to the code: src/polyseed.c as TRANSLATED on this run (Gen/CApi.v) ---- *)
 From Coq Require Import String.
-From PS Require Import Base GFDefs PackDefs StoreDefs MiscDefs StrDefs LangDefs ApiDefs SpecDefs SpecApi GFProofs PackProofs StoreProofs RefineProofs RoundTrip CTieBase CTieLang CTiePhrase CTiePhraseEv CTieSplit CTieApi CTieDecode CTieEncode CTieLocals CTieInject CTieCmp CTieSearch CTieClosed CodeTheorems CodeMachine.
+From PS Require Import Base GFDefs PackDefs StoreDefs MiscDefs StrDefs LangDefs ApiDefs SpecDefs SpecApi GFProofs PackProofs StoreProofs RefineProofs RoundTrip TraceProofs FrameProofs CTieBase CTieLang CTiePhrase CTiePhraseEv CTieSplit CTieApi CTieDecode CTieEncode CTieLocals CTieInject CTieCmp CTieSearch CTieClosed CodeTheorems CodeMachine.
 From PS.Gen Require Import Consts PrivConsts Langs.
 From PS.Gen Require CFuns.
 From PS.Gen Require CApi.
@@ -79,3 +79,18 @@ Theorem C15_code_tie_api_decode :
              else so = so0 /\ st_heap st' = st_heap st).
 Proof. exact @tie_decode. Qed.
 Print Assumptions C15_code_tie_api_decode.
+
+(* ON THE CODE: the ledger theorem read off the events of one call of the translated code (CodeMachine.cstep), for every well-formed call on a fresh state *)
+Theorem C15_code_tie_machine_ledger :
+  forall (sgn : bool) (fuel : nat) (ext : Z -> list Z -> Z) (OKW : bytes -> Prop),
+         (forall (li : nat) (L : lang) (w : bytes),
+          OKW w -> nth_error langs li = Some L -> ext (Z.of_nat li) (zs w) = enc (lang_search sgn L w)) ->
+         (forall t : bytes, no_nul t -> (Datatypes.length t + 2 <= fuel)%nat -> OKW t) ->
+         (18 <= fuel)%nat ->
+         forall (st : state) (o : op),
+         op_ready sgn fuel st o ->
+         Fresh st ->
+         let r := cstep sgn fuel ext st o in
+         ledger (handles st) (snd r) = Some (handles (fst (fst r))) /\ Fresh (fst (fst r)).
+Proof. exact @code_ledger. Qed.
+Print Assumptions C15_code_tie_machine_ledger.
